@@ -2,7 +2,7 @@
    Expanded by tools/oneoff/mksig.py from its compact spec; edit the spec, not this file. *)
 From Coq Require Import List String Bool.
 Import ListNotations.
-Open Scope string_scope.
+Local Open Scope string_scope.
 
 Inductive okind := KOut | KDev | KVal | KTgt | KName | KRegOrDev.
 Record sig := { s_name : string; s_ops : list okind }.
